@@ -85,7 +85,10 @@ func (m *MTProto) makeAuthKey() error { // nolint don't know how to make method 
 	}
 
 	// check of hash, trandom bytes trail removing occurs in this func already
-	decodedMessage := ige.DecryptMessageWithTempKeys(dhParams.EncryptedAnswer, nonceSecond.Int, nonceServer.Int)
+	decodedMessage, err := decryptServerAnswer(dhParams.EncryptedAnswer, nonceSecond.Int, nonceServer.Int)
+	if err != nil {
+		return errors.Wrap(err, "decrypting response from server")
+	}
 	data, err := tl.DecodeUnknownObject(decodedMessage)
 	if err != nil {
 		return errors.Wrap(err, "decoding response from server")
@@ -163,4 +166,17 @@ func (m *MTProto) makeAuthKey() error { // nolint don't know how to make method 
 	m.encrypted = true
 	err = m.SaveSession()
 	return errors.Wrap(err, "saving session")
+}
+
+// decryptServerAnswer decrypts answer of server with temporary keys. ige.DecryptMessageWithTempKeys panics if
+// data has wrong size or hash of content doesn't match, but answer of server is untrusted data, so here it is
+// an ordinary error.
+func decryptServerAnswer(msg []byte, nonceSecond, nonceServer *big.Int) (res []byte, err error) {
+	defer func() {
+		if r := recover(); r != nil {
+			res, err = nil, fmt.Errorf("handshake: invalid encrypted answer: %v", r)
+		}
+	}()
+
+	return ige.DecryptMessageWithTempKeys(msg, nonceSecond, nonceServer), nil
 }
